@@ -415,5 +415,9 @@ def run(ctx):
         C.anchor_missing('C20-SIB-format', 'Display for CharacterData')
     else:
         C.check(has(dp, r'EnumItem::to_str$|Display>::fmt$|Formatter.*::write_str$|write_fmt$'), 'C20-SIB-format', 'Display|delegates', 'Display for CharacterData does not delegate to the std formatters', '%s:%d' % (dp.file, dp.line))
+    # a String value is formatted by escape_text and parsed back by unescape_string: the two tables are inverse (shared with C01 / C07)
+    C.rule('C20-SIB-escape', 'the text written for a String value (escape_text) is read back to the same value by the loader (unescape_string): writer and reader escaping tables are inverse and complete, and the writer\'s fast path tests every character the table escapes')
+    from c01 import escape_rules
+    escape_rules(C, P, json.load(open(os.path.join(ctx['facts'], 'syn.json')))['files'], 'C20-SIB-escape')
     return C.finish('Sibling-table agreement only: the prefix/radix tables are extracted from the syntax trees of parse_integer and parse_float and compared with the AUTOSAR table and with each other (values, completeness, arm order); '
                     'the boolean table likewise; MIR-resolved callees show that each kind is formatted and parsed by an inverse pair of std routines. Numeric exactness is delegated to std and not decided.')
